@@ -4,6 +4,7 @@ import (
 	"fmt"
 	"go/token"
 	"go/types"
+	"strconv"
 	"strings"
 
 	"golang.org/x/tools/go/ssa"
@@ -592,10 +593,23 @@ func c16ListComplete(c *Ctx, L *ssa.Function) {
 	ruleA := "listing is complete: for an entry that is a real directory other than the root (and no walk error) every way through the callback records the entry's name"
 	ruleB := "listing is complete: the callback answers fs.SkipDir only for an entry known to be a directory (for a file or symlink WalkDir would skip the remaining entries of the plugin root) and never fs.SkipAll"
 	isDirFact := func(l string) bool {
+		if d, _, _ := modeBits(map[string]string{l: ""}, "call:invoke:io/fs.DirEntry.Type(param:"); d == 1 {
+			return true
+		}
 		return strings.HasPrefix(l, "T(call:(io/fs.FileMode).IsDir(call:invoke:io/fs.DirEntry.Type(param:") || strings.HasPrefix(l, "T(call:invoke:io/fs.DirEntry.IsDir(param:")
 	}
 	// an edge that contradicts "real directory, not the root, no error"
-	contradicts := func(l string) bool {
+	var contradicts func(l string) bool
+	contradicts = func(l string) bool {
+		// a disjunction computed into a value (`case !isDir || isSymlink:`): every alternative contradicts
+		if op, alts := splitTopArgs(l); op == "OR" && len(alts) > 0 {
+			for _, a := range alts {
+				if !contradicts(a) {
+					return false
+				}
+			}
+			return true
+		}
 		switch {
 		case strings.HasPrefix(l, "EQ(param:") && strings.HasSuffix(l, `,const:".")`):
 			return true
@@ -605,10 +619,12 @@ func c16ListComplete(c *Ctx, L *ssa.Function) {
 			return true
 		case strings.HasPrefix(l, "NE(param:") && strings.HasSuffix(l, ",nil)"):
 			return true
+		case c16MaskContradictsRealDir(l, "call:invoke:io/fs.DirEntry.Type(param:"):
+			return true
 		}
 		return false
 	}
-	for _, cl := range closuresOf(L) {
+	for _, cl := range c16WalkCallbacks(L) {
 		fi := w.Info(cl)
 		var appendBlocks []*ssa.BasicBlock
 		for _, b := range cl.Blocks {
@@ -762,7 +778,7 @@ func c16List(c *Ctx, mgrs map[string]bool) {
 	}
 	rule := "listing: an entry name is reported only for path != \".\", a directory and not a symlink, judged by the walked DirEntry's own type"
 	found := false
-	for _, cl := range closuresOf(L) {
+	for _, cl := range c16WalkCallbacks(L) {
 		fi := w.Info(cl)
 		c.SeenFn(cl.String())
 		for _, b := range cl.Blocks {
@@ -783,8 +799,10 @@ func c16List(c *Ctx, mgrs map[string]bool) {
 				els := appendedElems(call.Call.Args[1])
 				okName := len(els) == 1 && strings.HasPrefix(desc(els[0]), "call:invoke:io/fs.DirEntry.Name(param:")
 				_, g1 := hasLabel(g, "NE(param:", `,const:".")`)
-				_, g2 := hasLabel(g, "T(call:(io/fs.FileMode).IsDir(call:invoke:io/fs.DirEntry.Type(param:")
-				_, g3 := hasLabel(g, "EQ((call:invoke:io/fs.DirEntry.Type(param:", "& const:134217728),const:0)")
+				// directory and not a symlink, on the entry's own type: the two predicates, or any mask comparison that fixes
+				// both bits (`d.Type()&(fs.ModeDir|fs.ModeSymlink) == fs.ModeDir`)
+				mDir, mSym, _ := modeBits(g, "call:invoke:io/fs.DirEntry.Type(param:")
+				g2, g3 := mDir == 1, mSym == -1
 				c.Evals++
 				c.Check(okName && g1 && g2 && g3, "list/real-directories-only", rule, w.InstrPos(st),
 					fmt.Sprintf("name-from-entry=%v not-root=%v is-dir(entry type)=%v not-symlink(entry type)=%v; guards: %s", okName, g1, g2, g3, summarizeLabels(g, 6)))
@@ -805,4 +823,84 @@ func c16List(c *Ctx, mgrs map[string]bool) {
 		}
 	}
 	c.Check(okWalk, "list/walks-plugin-root", "listing walks the plugin file system from its root", w.FnPos(L), "another tree is walked")
+}
+
+// c16WalkCallbacks: the functions WalkDir calls for the listing — the closures declared in L and whatever L hands to
+// fs.WalkDir as its callback: a closure, a plain function, or a method value (`found.visit`: the bound-method wrapper is
+// resolved to the method, whose receiver fields then play the part of the captured variables).
+func c16WalkCallbacks(L *ssa.Function) []*ssa.Function {
+	out := closuresOf(L)
+	seen := map[*ssa.Function]bool{}
+	for _, f := range out {
+		seen[f] = true
+	}
+	add := func(f *ssa.Function) {
+		if f != nil && f.Blocks != nil && !seen[f] {
+			seen[f] = true
+			out = append(out, f)
+		}
+	}
+	for _, ci := range allCalls(L) {
+		call, ok := ci.(*ssa.Call)
+		if !ok || calleeName(call) != "io/fs.WalkDir" && calleeName(call) != "path/filepath.WalkDir" || len(call.Call.Args) != 3 {
+			continue
+		}
+		v := call.Call.Args[2]
+		for {
+			if ct, ok := v.(*ssa.ChangeType); ok {
+				v = ct.X
+				continue
+			}
+			break
+		}
+		switch x := v.(type) {
+		case *ssa.Function:
+			add(x)
+		case *ssa.MakeClosure:
+			f, _ := x.Fn.(*ssa.Function)
+			if f == nil {
+				continue
+			}
+			if f.Synthetic != "" && len(f.Blocks) == 1 {
+				// bound method wrapper: one call of the method on the bound receiver
+				for _, in := range f.Blocks[0].Instrs {
+					if c2, ok := in.(*ssa.Call); ok {
+						add(c2.Call.StaticCallee())
+					}
+				}
+				continue
+			}
+			add(f)
+		}
+	}
+	return out
+}
+
+// c16MaskContradictsRealDir: the fact `(M & mask) ==/!= val` about the entry's type cannot hold for a real directory
+// (directory bit set, symlink bit clear): an equality that fixes one of the two bits the other way, or an inequality
+// over exactly those bits whose value is what a real directory has.
+func c16MaskContradictsRealDir(l, prefix string) bool {
+	const bDir, bSym = uint64(1) << 31, uint64(1) << 27
+	op, args := splitTopArgs(l)
+	if (op != "EQ" && op != "NE") || len(args) != 2 || !strings.HasPrefix(args[0], "("+prefix) || !strings.HasSuffix(args[0], ")") {
+		return false
+	}
+	i := strings.LastIndex(args[0], " & const:")
+	if i < 0 {
+		return false
+	}
+	mask, err1 := strconv.ParseUint(strings.TrimSuffix(args[0][i+len(" & const:"):], ")"), 10, 64)
+	val, err2 := strconv.ParseUint(strings.TrimPrefix(args[1], "const:"), 10, 64)
+	if err1 != nil || err2 != nil || !strings.HasPrefix(args[1], "const:") {
+		return false
+	}
+	known := mask & (bDir | bSym)
+	if known == 0 {
+		return false
+	}
+	expected := known & bDir
+	if op == "EQ" {
+		return val&(bDir|bSym) != expected
+	}
+	return mask == known && val == expected
 }
